@@ -405,6 +405,18 @@ def run_check(P, tier, seed):
         extra = [a for a in ax if a not in AXIOM_ALLOWLIST]
         if extra:
             problems.append(f"theorem {name} depends on axioms {extra}")
+    coqchk_note = "not run in the quick tier"
+    if tier == "thorough" and audit["ok"]:
+        # independent re-check of the compiled theorem file and everything it depends on, with the axioms it relies on
+        rcc, outc = sh(["coqchk", "-o", "-silent", "-Q", COQ, "WX", f"WX.Properties.{pid}"], timeout=1500, cwd=COQ)
+        if rcc != 0:
+            problems.append("coqchk rejects the compiled development: " + outc[-800:])
+            coqchk_note = "failed"
+        elif "* Axioms: <none>" not in outc:
+            problems.append("coqchk reports axioms: " + outc[-800:])
+            coqchk_note = "axioms reported"
+        else:
+            coqchk_note = "coqchk -o: accepted, Axioms: <none>"
     obligations = len(audit["theorems"])
     discharged = len([t for t in audit["theorems"] if t in audit["closed"] or
                       (t in audit["axioms"] and all(a in AXIOM_ALLOWLIST for a in audit["axioms"][t]))]) \
@@ -481,6 +493,7 @@ def run_check(P, tier, seed):
             "input_distribution": corr.dist,
             "exhaustive": corr.exhaustive,
             "known_findings_reported": sorted(reported_known),
+            "coqchk": coqchk_note,
             "broken": problems,
         },
         "assumptions": list(P.trusted),
